@@ -4,6 +4,7 @@
 from __future__ import annotations
 
 import re
+import unicodedata
 import zlib
 
 from hypothesis import strategies as st
@@ -72,11 +73,23 @@ def contig_number(text: str):
     return None
 
 
+def nfkc_clean(text: str) -> str:
+    """ compatibility-normalised and stripped until stable: the form under which ids written with look-alike
+        characters (no-break/ideographic space, fullwidth punctuation, ligatures) would coincide.
+        Used for labels, the generator and the non-trivial rule only - never as an oracle. """
+    for _ in range(4):
+        new = strip_illegal(unicodedata.normalize("NFKC", text))
+        if new == text:
+            break
+        text = new
+    return text
+
+
 def _rewrite_keys(identifier: str) -> set:
     """ keys under which two ids may run into each other in one of the rewrite stages """
     stripped = strip_illegal(identifier)
     keys = {"=" + identifier, "=" + stripped, "=" + re.sub(r"(_\d+)+$", "", stripped),
-            "=" + re.sub(r"(_\d+)+$", "", identifier)}
+            "=" + re.sub(r"(_\d+)+$", "", identifier), "=" + nfkc_clean(identifier)}
     if len(identifier) > MAX_LEN:
         keys.add("7" + identifier[:7])
         keys.add("7" + strip_illegal(identifier[:7]))
@@ -140,6 +153,11 @@ def _preprocess(spec: dict):
             if str(err) == "record has no name":
                 return None, str(err)
             raise Violation("preprocess_total", {"exception": "AntismashInputError", "message": str(err)[:300]})
+        except RuntimeError as err:
+            # generate_unique_id's documented (and pinned, test_overlong) refusal when no name fits max_length
+            if str(err).startswith("Could not generate unique id"):
+                return None, "unique_id_overflow"
+            raise Violation("preprocess_total", {"exception": "RuntimeError", "message": str(err)[:300]})
         except Exception as err:  # pylint: disable=broad-except
             raise Violation("preprocess_total", {"exception": type(err).__name__, "message": str(err)[:300]})
     finally:
@@ -185,6 +203,25 @@ def _dedup_form_overlong(ids: list) -> bool:
     return False
 
 
+def _judge_rejection(spec: dict, rejection: str) -> str:
+    """ a refusal of the whole input is accepted only when the input justifies it; returns a class label """
+    entries = spec["records"]
+    if rejection == "record has no name":
+        if not _only_illegal_possible(entries):
+            raise Violation("no_name_error_unjustified", {"message": rejection})
+        return "out_rejected_no_name"
+    # no <first 12 characters>_<n> of at most 16 characters is left only if 1000 of them are taken:
+    # needs at least 1000 ids starting with the same 12 characters, and long headers refused
+    heads: dict = {}
+    for entry in entries:
+        head = strip_illegal(entry["id"])[:12]
+        heads[head] = heads.get(head, 0) + 1
+    if spec["long"] or max(heads.values()) < 1000:
+        raise Violation("preprocess_total", {"exception": "RuntimeError", "message": "Could not generate unique id",
+                                             "largest_group_sharing_12": max(heads.values())})
+    return "out_refused_unique_id_overflow"
+
+
 def _record_classes(spec: dict, results, rejected: bool) -> list:
     entries = spec["records"]
     ids = [entry["id"] for entry in entries]
@@ -212,8 +249,13 @@ def _record_classes(spec: dict, results, rejected: bool) -> list:
         classes.append("in_looks_shortened")
     if _dedup_form_overlong(ids):
         classes.append("in_dedup_form_made_overlong")
-    if rejected:
-        classes.append("out_rejected_no_name")
+    if any(ord(ch) > 127 for i in ids for ch in i):
+        classes.append("in_non_ascii")
+        if any(nfkc_clean(i) != strip_illegal(i) for i in ids):
+            classes.append("in_nfkc_changes_id")
+        cleaned = [nfkc_clean(i) for i in ids]
+        if any(cleaned.count(c) > 1 and len({i for i in ids if nfkc_clean(i) == c}) > 1 for c in cleaned):
+            classes.append("in_nfkc_twins")
     if results is not None:
         changed = sum(1 for res in results if res["id"] != res["input_id"])
         classes.append("out_changed_" + ("0" if changed == 0 else "1" if changed == 1 else "2plus"))
@@ -227,15 +269,7 @@ def _record_classes(spec: dict, results, rejected: bool) -> list:
 
 # --------------------------------------------------------------------------- record ids
 
-def check_records(spec: dict) -> dict:
-    """ distinct, legal, non-empty, original remembered (length is judged by check_length) """
-    entries = spec["records"]
-    results, rejection = _preprocess(spec)
-    if results is None:
-        if not _only_illegal_possible(entries):
-            raise Violation("no_name_error_unjustified", {"message": rejection})
-        return {"nontrivial": records_nontrivial(entries), "classes": _record_classes(spec, None, True)}
-
+def _judge_records(spec: dict, results: list) -> None:
     forgotten = [res for res in results if res["id"] != res["input_id"] and res["original_id"] != res["input_id"]]
     if forgotten:
         raise Violation("original_id", {"records": forgotten})
@@ -256,24 +290,129 @@ def check_records(spec: dict) -> dict:
                   for key, group in sorted(groups.items()) if len(group) > 1]
     if collisions:
         raise Violation("ids_distinct", {"collisions": collisions, "long": bool(spec["long"])})
+
+
+def _judge_length(spec: dict, results: list) -> None:
+    if spec["long"]:
+        return
+    too_long = [res for res in results if len(res["id"]) > MAX_LEN]
+    if too_long:
+        raise Violation("id_length", {"records": too_long})
+    too_long = [res for res in results if len(res["name"]) > MAX_LEN]
+    if too_long:
+        raise Violation("name_length", {"records": too_long})
+
+
+def check_records(spec: dict) -> dict:
+    """ distinct, legal, non-empty, original remembered (length is judged by check_length) """
+    entries = spec["records"]
+    results, rejection = _preprocess(spec)
+    if results is None:
+        label = _judge_rejection(spec, rejection)
+        return {"nontrivial": records_nontrivial(entries), "classes": _record_classes(spec, None, True) + [label]}
+    _judge_records(spec, results)
     return {"nontrivial": records_nontrivial(entries), "classes": _record_classes(spec, results, False)}
 
 
 def check_length(spec: dict) -> dict:
     """ at most 16 characters unless long headers were allowed """
     entries = spec["records"]
-    results, _ = _preprocess(spec)
+    results, rejection = _preprocess(spec)
     long_input = any(len(entry["id"]) > MAX_LEN or len(entry["name"]) > MAX_LEN for entry in entries)
     if results is None:
-        return {"nontrivial": long_input, "classes": _record_classes(spec, None, True)}
-    if not spec["long"]:
-        too_long = [res for res in results if len(res["id"]) > MAX_LEN]
-        if too_long:
-            raise Violation("id_length", {"records": too_long})
-        too_long = [res for res in results if len(res["name"]) > MAX_LEN]
-        if too_long:
-            raise Violation("name_length", {"records": too_long})
+        label = _judge_rejection(spec, rejection)
+        return {"nontrivial": long_input, "classes": _record_classes(spec, None, True) + [label]}
+    _judge_length(spec, results)
     return {"nontrivial": long_input, "classes": _record_classes(spec, results, False)}
+
+
+# --------------------------------------------------------------------------- crowds (1000+ colliding ids)
+
+def expand_crowd(spec: dict) -> dict:
+    """ compact spec -> ordinary record-list spec.  {"blocks": [{"template": "x{:04d}", "first": 0, "count": n}
+        or {"ids": [...]}], "long": bool}; a template without a field is repeated verbatim """
+    ids: list = []
+    for block in spec["blocks"]:
+        if "ids" in block:
+            ids.extend(block["ids"])
+            continue
+        for number in range(block.get("first", 0), block.get("first", 0) + block["count"]):
+            ids.append(block["template"].format(number))
+    return {"records": [{"id": identifier, "name": f"n{index}"} for index, identifier in enumerate(ids)],
+            "long": bool(spec["long"])}
+
+
+def _shorten_detail(detail):
+    if isinstance(detail, dict):
+        return {key: _shorten_detail(value) for key, value in detail.items()}
+    if isinstance(detail, list):
+        return [_shorten_detail(value) for value in detail[:4]] + ([f"... {len(detail) - 4} more"] if len(detail) > 4 else [])
+    return detail
+
+
+def check_crowd(spec: dict) -> dict:
+    """ constructed families of 10..1003 ids that all run into each other: every record clause and the length
+        clause on one run of the pipeline; the documented refusal (RuntimeError of generate_unique_id) passes """
+    full = expand_crowd(spec)
+    try:
+        results, rejection = _preprocess(full)
+        if results is None:
+            label = _judge_rejection(full, rejection)
+            return {"nontrivial": True, "classes": [label, f"n_{len(full['records'])}"]}
+        _judge_records(full, results)
+        _judge_length(full, results)
+    except Violation as vio:
+        raise Violation(vio.clause, _shorten_detail(vio.detail)) from None
+    longest = max(len(res["id"]) for res in results)
+    numbered = sum(1 for res in results if res["id"] != res["input_id"] and re.search(r"_\d+$", res["id"]))
+    classes = ["out_accepted", f"n_{len(results)}", f"longest_id_{longest}",
+               "numbered_" + ("0" if not numbered else "1-9" if numbered < 10 else "10-99" if numbered < 100 else
+                              "100-999" if numbered < 1000 else "1000plus")]
+    return {"nontrivial": True, "classes": classes}
+
+
+# --------------------------------------------------------------------------- generate_unique_id directly
+
+def check_unique_id(spec: dict) -> dict:
+    """ generate_unique_id(prefix, existing, start, max_length): the returned name is prefix_<counter>, is not in
+        `existing`, the counter is not below start, and the name is within max_length (when positive) - or the
+        documented RuntimeError """
+    from antismash.common.record_processing import generate_unique_id
+    prefix = spec["prefix"]
+    existing = {f"{prefix}_{number}" for first, count in spec["taken_ranges"] for number in range(first, first + count)}
+    existing.update(spec.get("others") or [])
+    before = set(existing)
+    start = spec["start"]
+    max_length = spec["max_length"]
+    kwargs = {}
+    if start is not None:
+        kwargs["start"] = start
+    if max_length is not None:
+        kwargs["max_length"] = max_length
+    try:
+        name, counter = generate_unique_id(prefix, existing, **kwargs)
+    except RuntimeError:
+        # refusing is only right if the smallest free candidate really does not fit
+        number = start or 0
+        while f"{prefix}_{number}" in before:
+            number += 1
+        if max_length is None or max_length < 1 or len(f"{prefix}_{number}") <= max_length:
+            raise Violation("unique_id_refused_without_need", {"free": f"{prefix}_{number}", "max_length": max_length})
+        return {"nontrivial": True, "classes": ["refused"]}
+    except Exception as err:  # pylint: disable=broad-except
+        raise Violation("unique_id_total", {"exception": type(err).__name__, "message": str(err)[:200]})
+    if existing != before:
+        raise Violation("unique_id_mutated_input", {"added": sorted(existing - before)[:5]})
+    if name in before:
+        raise Violation("unique_id_not_unique", {"name": name})
+    if name != f"{prefix}_{counter}" or counter < (start or 0):
+        raise Violation("unique_id_form", {"name": name, "counter": counter, "start": start})
+    if max_length is not None and max_length > 0 and len(name) > max_length:
+        raise Violation("unique_id_length", {"name": name, "max_length": max_length})
+    crossed = len(str(counter)) > len(str(start or 0))
+    return {"nontrivial": counter != (start or 0),
+            "classes": ["returned", "digit_boundary_crossed" if crossed else "same_width",
+                        "at_limit" if max_length and len(name) == max_length else "below_limit_or_unlimited"]}
 
 
 # --------------------------------------------------------------------------- gene ids
@@ -486,6 +625,9 @@ SUBCHECKS = {
     "genes": check_genes,
     "records_enum": check_records,
     "length_enum": check_length,
+    "crowd_enum": check_crowd,
+    "unique_id_enum": check_unique_id,
+    "unique_id": check_unique_id,
 }
 
 
@@ -539,6 +681,10 @@ SIGNATURES = {
 
 _SAFE = "abcdxyzABXY0189_-."
 _ILLEGAL_LIST = sorted(ILLEGAL_RECORD)
+# characters that compatibility normalisation (NFKC) turns into *illegal* ASCII characters, then some that it
+# turns into legal ones (ligature, fullwidth letter/digit, halfwidth katakana, combining tilde) or leaves alone
+_LOOKALIKE_ILLEGAL = ["\u00a0", "\u3000", "\u2003", "\uff1a", "\uff0f", "\uff08", "\uff5c", "\uff1b", "\uff1d"]
+_OTHER_NON_ASCII = ["\ufb01", "\uff21", "\uff11", "\uff71", "n\u0303", "\u00e9", "\u00df", "\u03a9", "\u00b5"]
 _WORDS = ["contig", "Contig", "ctg", "cont", "contg", "scaffold", "Scaffold", "scaf", "scaffol"]
 
 
@@ -592,7 +738,7 @@ def _shortened_guess(identifier: str, index: int) -> str:
 @st.composite
 def _new_id(draw, ids: list, stems: list, emphasis: str, dirty: bool, big: bool) -> str:
     kinds = ["fresh", "fresh", "dup", "suffix", "long_ext", "long_ext", "shortened_form", "trunc12_form",
-             "versioned", "version_prefix", "contig", "stem", "tail_variant"]
+             "versioned", "version_prefix", "other_version", "contig", "stem", "tail_variant"]
     if dirty:
         kinds += ["illegal_variant", "illegal_variant", "stripped_variant", "only_illegal"]
     if emphasis == "length":
@@ -644,6 +790,10 @@ def _new_id(draw, ids: list, stems: list, emphasis: str, dirty: bool, big: bool)
         else:
             body = draw(st.text(alphabet=_ILLEGAL_LIST, min_size=15, max_size=16))
         return f"{body}.{draw(st.sampled_from('1239'))}"
+    if kind == "other_version":    # the same accession with another version (or a first version for a plain id)
+        if re.search(r"\.\d$", base):
+            return base[:-1] + draw(st.sampled_from([d for d in "1239" if d != base[-1]]))
+        return f"{(base.replace('.', 'x') + 'v' * 16)[:draw(st.sampled_from([15, 16]))]}.{draw(st.sampled_from('12'))}"
     if kind == "version_prefix":
         return base.partition(".")[0] or stem
     if kind == "contig":
@@ -688,6 +838,19 @@ def id_list_specs(draw, emphasis: str = "collide"):
                 long_id = dup + draw(st.text(alphabet="abcxyz019", min_size=5, max_size=12))
                 ids += [dup] * copies + [long_id]
                 blocker_for = long_id
+    # 1 case in 4: ids written with non-ASCII characters, together with their "cleaned twins" (the id with the
+    # look-alike characters normalised and/or removed), which must stay different records
+    if draw(st.integers(0, 3)) == 0:
+        for _ in range(draw(st.integers(1, 2))):
+            base = draw(st.sampled_from(ids + stems)) or "id"
+            base = base[:draw(st.sampled_from([6, 12, 14, 16, 30]))]
+            pos = draw(st.integers(0, len(base)))
+            char = draw(st.sampled_from(_LOOKALIKE_ILLEGAL + _LOOKALIKE_ILLEGAL + _OTHER_NON_ASCII))
+            exotic = base[:pos] + char + base[pos:]
+            twins = [exotic, nfkc_clean(exotic), strip_illegal(unicodedata.normalize("NFKC", exotic)),
+                     unicodedata.normalize("NFKC", exotic), base, nfkc_clean(exotic) + "_0"]
+            chosen = draw(st.lists(st.sampled_from(twins[1:]), min_size=0, max_size=2))
+            ids += [exotic] + [twin for twin in chosen if twin]
     ids = list(draw(st.permutations(ids)))
     if blocker_for is not None:      # the literal cNNNNN_ form of that id at its final position, appended last
         ids.append(f"c{ids.index(blocker_for) + 1:05d}_{blocker_for[:7]}..")
@@ -709,13 +872,14 @@ def id_list_specs(draw, emphasis: str = "collide"):
 
 
 def enum_record_lists(with_quadruples: bool = False):
-    """ all ordered lists of 1-3 ids from a pool of 19 mutually colliding forms, both settings; all ordered lists
+    """ all ordered lists of 1-3 ids from a pool of 20 mutually colliding forms, both settings; all ordered lists
         of 4 from a focused pool of 8 (long headers refused); thorough: also all 4-lists from a pool of 10 """
     pool = ["ab", "a:b", "a b", "ab_0", "a:b_0", ":",
             "abcdefghijklmnopq", "abcdefghijklmnopr", "abcdefg:hijklmnopq", "abcdefghijkl_0", "c00001_abcdefg..",
             "c00002_abcdefg..", "NZ_AMZN01000079.1", "NZ_AMZN01000079", "NZ_AMZN:01000079.1",
             "abcdefghij_contig2-x", "abcdefghij_contig2-y",
-            "abcdefghijklmn", "abcdefghijklmn_0.1"]      # X twice + X_0.1: the de-duplicated form made over-long
+            "abcdefghijklmn", "abcdefghijklmn_0.1",      # X twice + X_0.1: the de-duplicated form made over-long
+            "NZ_AMZN01000079.2"]                         # two versions of one accession
     small = ["x", "x_0", "x_0_0", "x:", "abcdefghijklmnopq", "abcdefghijkl_0", "abcdefghijkl_1", "c00001_abcdefg..",
              "c00004_abcdefg..", "abcdefghijkl"]
     # quick and thorough: all 4-lists (long headers refused) around "X twice, over-long X..., its cNNNNN_ form taken"
@@ -740,6 +904,91 @@ def enum_record_lists(with_quadruples: bool = False):
                 for combo in itertools.product(small, repeat=4):
                     yield {"records": [{"id": i, "name": i} for i in combo], "long": allow_long}
     return cases
+
+
+def enum_unicode_lists():
+    """ all ordered lists of 1-3 ids from a pool of ids that differ only in look-alike characters """
+    pool = ["StrepA", "Strep\u00a0A", "Strep\u3000A", "Strep\uff1aA", "Strep A", "Strep:A", "StrepA_0",
+            "\uff33trepA", "Stre\u0301pA"]
+
+    def cases():
+        for allow_long in (False, True):
+            for first in pool:
+                yield {"records": [{"id": first, "name": first}], "long": allow_long}
+                for second in pool:
+                    yield {"records": [{"id": first, "name": first}, {"id": second, "name": second}],
+                           "long": allow_long}
+                    for third in pool:
+                        yield {"records": [{"id": i, "name": i} for i in (first, second, third)],
+                               "long": allow_long}
+    return cases
+
+
+def enum_crowds(thorough: bool = False):
+    """ constructed families in which 10 .. 1003 ids run into each other, so that the counters of the generated
+        names cross 9->10, 99->100 and 999->1000 (where <first 12 characters>_<n> stops fitting 16 characters) """
+    def cases():
+        # long ids with the same contig number and the same first 12 characters: one keeps cNNNNN_xxxxxxx..,
+        # the others get <first 12>_<n>
+        for count in (11, 12, 101, 102, 1001, 1002, 1003):
+            yield {"blocks": [{"template": "metagenome-contig7-bin{:04d}", "count": count}], "long": False}
+        # the same with the numbered names already present as literal ids of other records
+        for taken in (9, 10, 99, 100, 999, 1000, 1001):
+            yield {"blocks": [{"template": "abcdefghijkl_{}", "count": taken},
+                              {"ids": ["c00005_abcdefg..", "abcdefghijkl-contig5-x", "abcdefghijkl-contig5-y"]}],
+                   "long": False}
+            yield {"blocks": [{"ids": ["abcdefghijkl-contig5-x", "c00005_abcdefg.."]},
+                              {"template": "abcdefghijkl_{}", "first": 1, "count": taken},
+                              {"ids": ["abcdefghijkl-contig5-y", "abcdefghijkl_0"]}], "long": False}
+        # identical ids: de-duplication numbers them; 13/14 characters + _<n> grows past 16 and is shortened again
+        for allow_long in (False, True):
+            for template in ("x", "abcdefghijklm", "abcdefghijklmn", "abcdefghijklmnopqrs"):
+                for count in ((11, 12, 101, 102, 1001) if not thorough else (11, 12, 101, 102, 1001, 1002, 1102)):
+                    yield {"blocks": [{"template": template, "count": count}], "long": allow_long}
+        # identical versioned accessions next to their unversioned form
+        for count in (3, 12, 102):
+            yield {"blocks": [{"ids": ["NZ_AMZN01000079"]}, {"template": "NZ_AMZN01000079.1", "count": count}],
+                   "long": False}
+    return cases
+
+
+def enum_unique_ids():
+    """ existing-id sets that force the counter across a digit boundary exactly at max_length """
+    def cases():
+        for prefix in ("a", "abcdefghijkl", "p_0"):
+            for boundary in (10, 100, 1000):
+                for taken in (boundary - 2, boundary - 1, boundary, boundary + 1):
+                    for start in (None, 0, 1, boundary - 1, boundary):
+                        for slack in (-1, 0, 1):
+                            width = len(f"{prefix}_{boundary - 1}") + slack
+                            yield {"prefix": prefix, "taken_ranges": [[0, taken]], "others": [prefix],
+                                   "start": start, "max_length": width}
+                        yield {"prefix": prefix, "taken_ranges": [[0, taken]], "others": [], "start": start,
+                               "max_length": None}
+                        yield {"prefix": prefix, "taken_ranges": [[0, taken]], "others": [], "start": start,
+                               "max_length": -1}
+            # gaps: the first free counter is before the boundary
+            yield {"prefix": prefix, "taken_ranges": [[0, 5], [6, 20]], "others": [], "start": None,
+                   "max_length": len(prefix) + 2}
+            yield {"prefix": prefix, "taken_ranges": [[0, 5], [6, 20]], "others": [], "start": 6,
+                   "max_length": len(prefix) + 2}
+    return cases
+
+
+@st.composite
+def unique_id_specs(draw):
+    prefix = draw(st.sampled_from(["a", "seq", "abcdefghijkl", "x_1", "%s", "{}"]))
+    boundary = draw(st.sampled_from([10, 10, 100, 100, 1000]))
+    taken = max(0, boundary + draw(st.integers(-3, 3)))
+    ranges = [[0, taken]]
+    if draw(st.integers(0, 3)) == 0:
+        gap = draw(st.integers(0, max(0, taken - 1)))
+        ranges = [[0, gap], [gap + 1, max(0, taken - gap)]]
+    start = draw(st.sampled_from([None, 0, 1, boundary - 1, boundary, draw(st.integers(0, boundary + 5))]))
+    max_length = draw(st.sampled_from([None, -1, 0, len(prefix) + 1 + len(str(boundary - 1)),
+                                       len(prefix) + 1 + len(str(boundary)), len(prefix) + 1, len(prefix)]))
+    return {"prefix": prefix, "taken_ranges": ranges, "others": draw(st.sampled_from([[], [prefix], [prefix + "_"]])),
+            "start": start, "max_length": max_length}
 
 
 def enum_lengths():
@@ -823,9 +1072,13 @@ def gene_specs(draw):
 
 
 def run(ctx) -> None:
-    shards = ctx.pick(4, 16)
+    shards = ctx.pick(8, 16)
     ctx.enum("records_enum", enum_record_lists(ctx.thorough), shards=ctx.pick(8, 16))
     ctx.enum("length_enum", enum_lengths(), shards=ctx.pick(4, 8))
+    ctx.enum("records_enum", enum_unicode_lists(), shards=ctx.pick(4, 8))
+    ctx.enum("crowd_enum", enum_crowds(ctx.thorough), shards=ctx.pick(8, 16))
+    ctx.enum("unique_id_enum", enum_unique_ids(), shards=ctx.pick(4, 8))
+    ctx.hyp("unique_id", unique_id_specs(), max_examples=ctx.pick(600, 8000), shards=ctx.pick(4, 8))
     ctx.hyp("records", id_list_specs("collide"), max_examples=ctx.pick(3000, 60000), shards=shards)
     ctx.hyp("length", id_list_specs("length"), max_examples=ctx.pick(1500, 30000), shards=shards)
     ctx.hyp("genes", gene_specs(), max_examples=ctx.pick(2000, 40000), shards=shards)
